@@ -175,6 +175,7 @@ def listing_matches(lines, b: bytes):
             elif gname == '}' and i + 1 < len(ref) and ref[i + 1][0] == '}' \
                     and in_try and in_try[-1]:
                 i += 1          # an empty EXCEPT clause may be omitted
+                in_try.pop()    # ... and this `}` closes the TRY block
             else:
                 return f'expected clause separator, got {gname}'
         else:
